@@ -65,13 +65,17 @@ def run(ctx):
     vlib.proof_coverage(ctx, pa)
     ctx.coverage["trusted_base"] = vlib.std_trusted_base(pa, wc.TRUSTED)
     n = 6000 if ctx.tier == "thorough" else 700
-    cases, vfile, binp = wc.build_and_run(ctx, "C01", n)
+    per = 100 if ctx.tier == "thorough" else 25
+    # thorough: additionally every tree with <= 5 nodes (root included; ordered listings; names a, b, .gitignore) x every
+    # combination of 7 boolean options
+    extra = ["-exhaustive", "-maxnodes", "4"] if ctx.tier == "thorough" else []
+    cases, vfile, binp = wc.build_and_run(ctx, "C01", n, extra, per=per)
     if cases is None:
         ctx.violation({"kind": "harness-build-failed", "log": vfile[-3000:], "correspondence": wc.CORR_NAME,
                        "theorems_no_longer_tied_to_code": THEOREMS}, nofail=True)
         return
     ctx.log("harness ran %d cases" % len(cases))
-    res, nshards = wc.shard_eval(ctx, "C01", vfile, DEFS)
+    res, nshards = wc.shard_eval(ctx, "C01", vfile, DEFS, per=per)
     corr_bad, spec_bad = res["corr_bad"], sorted(set(res["spec_bad"] + res["paths_bad"] + res["multi_bad"]))
     in_dom, in_base, in_paths = set(res["dom_idx"]), set(res["base_idx"]), set(res["paths_idx"])
     in_multi = set(res["multi_idx"])
@@ -113,8 +117,12 @@ def run(ctx):
                 "SHA-256 of the canonical input; non-trivial when the tree has >= 1 directory below the root, >= 1 file some "
                 "extractor requires and >= 1 skip rule/option (skip list, regex, glob, gitignore, sub-dir cut-off, requested "
                 "paths, symlink reading, size limit) is active",
-        "samples": [describe(cases[i]) for i in sorted({3, 4, len(cases) // 2, len(cases) - 1}) if i < len(cases)],
+        "samples": [describe(cases[i]) for i in sorted({3, 4, min(len(cases) - 1, 800), min(len(cases) - 1, 900)}) if i < len(cases)],
         "exhaustive": False,
+        "exhaustive_small_scope": (("all %d (tree, options) pairs: every tree with <= 5 nodes (root included, ordered listings, names "
+                                    "a / b / .gitignore, files or directories) x the 2^7 combinations of skip list, regex, glob, gitignore, "
+                                    "size limit, requested path, sub-directory cut-off (cut-off only with a requested path)")
+                                   % sum(1 for c in cases if c["stream"] == "exhaustive")) if ctx.tier == "thorough" else "thorough tier only",
         "input_distribution": {
             "streams": wc.histogram(c["stream"] for c in cases),
             "nodes": wc.histogram(min(wc.tree_stats(c)["nodes"] // 5 * 5, 40) for c in cases),
